@@ -21,7 +21,8 @@ CONSTANTS PNorm,    \* unquoted one-character tokens
           PMacro,   \* multi-character tokens (strings, all characters unquoted)
           PLen,     \* maximal number of tokens
           SAlpha,   \* characters of the strings
-          SLen      \* maximal string length
+          SLen,     \* maximal string length
+          Kind      \* "match": lines for the matcher; "shell": lines for ${v#p}.. and case
 
 \* alphabets named here because a .cfg file cannot write a backslash
 AlphaFull    == {"a", "b", ".", "-", "*", "?", "[", "]", "!", "^", "\\", ":", "="}
@@ -43,7 +44,13 @@ RECURSIVE Join(_)
 Join(s) == IF Len(s) = 0 THEN "" ELSE s[1] \o Join(Tail(s))
 DomStr == [s \in Dom |-> Join(s)]
 
-ASSUME PrintT(ToJson([dom |-> {DomStr[s] : s \in Dom}]))
+\* `case` statement of the shell binding: the pattern under test is the only
+\* pattern of the first item; these are the items after it (all unquoted).
+CaseRest == << <<"a*", "*.">>, <<"*">> >>
+CaseRestA == [i \in 1..Len(CaseRest) |->
+                [j \in 1..Len(CaseRest[i]) |-> Parse(WithoutEscape(Explode(CaseRest[i][j]))).atoms]]
+
+ASSUME PrintT(ToJson([dom |-> {DomStr[s] : s \in Dom}, case_rest |-> CaseRest]))
 
 VARIABLES p, n
 vars == <<p, n>>
@@ -69,5 +76,21 @@ Line ==
       m  |-> {DomStr[s] : s \in MS},
       x  |-> {DomStr[s] : s \in XS}]
 
-Emit == PrintT(ToJson(Line))
+\* ${s#p} ${s##p} ${s%p} ${s%%p} and the number of the case item selected
+ShellLine ==
+  LET P  == Parse(p)
+      A  == P.atoms
+      ok == P.un = {} /\ ~P.mc
+  IN [c  |-> [i \in 1..Len(p) |-> p[i].c],
+      l  |-> [i \in 1..Len(p) |-> IF p[i].l THEN 1 ELSE 0],
+      u  |-> IF P.un = {} THEN (IF P.mc THEN "multi-character collating symbol" ELSE "")
+             ELSE CHOOSE r \in P.un : TRUE,
+      cs |-> {Join(s) : s \in Syms(A)},
+      sh |-> IF ~ok THEN {} ELSE
+             {<< DomStr[s],
+                               Join(TrimPrefixA(A, s, FALSE)), Join(TrimPrefixA(A, s, TRUE)),
+                               Join(TrimSuffixA(A, s, FALSE)), Join(TrimSuffixA(A, s, TRUE)),
+                               ToString(CaseSelectA(s, <<<<A>>>> \o CaseRestA)) >> : s \in Dom}]
+
+Emit == PrintT(ToJson(IF Kind = "shell" THEN ShellLine ELSE Line))
 =============================================================================
